@@ -171,8 +171,7 @@ theorem kemenyYoung_ren (σ : Cand → Cand) (hσ : Function.Injective σ) (v : 
     rfl
   | _ :: _ :: _ => rfl
 
-example : Function.Injective (fun c : Cand => 2 * c + 5) :=
-  fun (a b : Nat) (h : 2 * a + 5 = 2 * b + 5) => by omega
+example : Function.Injective (fun c : Cand => c + 5) := fun _ _ h => Nat.add_right_cancel h
 
 example : ([((0, 1), (3 : Rat)), ((1, 0), 2), ((1, 2), 4), ((2, 1), 1)] : Pairwise).Perm
       [((1, 2), (4 : Rat)), ((0, 1), 3), ((2, 1), 1), ((1, 0), 2)] ∧
